@@ -173,6 +173,9 @@ pub enum Instruction {
     Block(Block),
     Break,
     Continue,
+    /// An operation on constants that failed when a function value was being created:
+    /// it fails when, and only if, it is reached
+    Fail(ExecError),
     #[from(DestructTuple)]
     DestructTuple(Arc<DestructTuple>),
     #[from(FieldAccess)]
@@ -282,13 +285,25 @@ impl Exec for Instruction {
             | Self::Struct(ins) | Self::TypeFilter(ins) | Self::UnaryOperation(ins)
             | Self::TupleAccess(ins) => ins.exec(interpreter),
             Self::Break => Err(ExecStop::Break),
-            Self::Continue => Err(ExecStop::Continue)
+            Self::Continue => Err(ExecStop::Continue),
+            Self::Fail(error) => Err((*error).into())
         }
     }
 }
 
 impl Recreate for Instruction {
     fn recreate(&self, local_variables: &mut LocalVariables) -> Result<Instruction, ExecError> {
+        match self.fold(local_variables) {
+            // creating a function value evaluates nothing of its body: a constant operation
+            // in it that cannot succeed fails when the body gets there, not now
+            Err(error) if local_variables.at_run_time => Ok(Self::Fail(error)),
+            result => result,
+        }
+    }
+}
+
+impl Instruction {
+    fn fold(&self, local_variables: &mut LocalVariables) -> Result<Instruction, ExecError> {
         match_any! {self,
             Self::LocalVariable(ident, _) => Ok(local_variables.get(ident).map_or_else(
                 || {
@@ -328,7 +343,7 @@ impl ReturnType for Instruction {
             | Self::TypeFilter(ins) | Self::UnaryOperation(ins) | Self::TupleAccess(ins)
                 => ins.return_type(),
             Self::Loop(_) => Type::Void,
-            Self::Break | Self::Continue => Type::Never
+            Self::Break | Self::Continue | Self::Fail(_) => Type::Never
         }
     }
 }
